@@ -45,6 +45,8 @@ struct Node {
     _exit: oneshot::Sender<()>,
     /// the configuration value the node was started from (a restart starts from a clone of it)
     config: discv5::Config,
+    /// the local record as the handler shares it with the rest of the node
+    enr_arc: Option<Arc<parking_lot::RwLock<Enr>>>,
     wru: Vec<WhoAreYouRef>,
     requests: Vec<(NodeAddress, Request)>,
     c_nonce: u64,
@@ -1419,6 +1421,7 @@ impl Runner for HandlerRunner {
                     let enr_arc = Arc::new(parking_lot::RwLock::new(enr.clone()));
                     let key_arc = Arc::new(parking_lot::RwLock::new(key_of_idx(idx)));
                     let kept_config = config.clone();
+                    let kept_enr_arc = enr_arc.clone();
                     let res = rt.block_on(async {
                         let mut config = config;
                         config.executor = Some(Box::new(discv5::TokioExecutor::default()));
@@ -1429,7 +1432,7 @@ impl Runner for HandlerRunner {
                         return;
                     };
                     self.nodes.push(Node {
-                        idx, key, enr, addr, to_handler, from_handler, wire, _exit: exit, config: kept_config,
+                        idx, key, enr, addr, to_handler, from_handler, wire, _exit: exit, config: kept_config, enr_arc: Some(kept_enr_arc),
                         wru: Vec::new(), requests: Vec::new(), c_nonce: 0, c_cd: 0, c_eph: 0, c_rid: 0,
                     });
                     let un = match adv {
@@ -2093,6 +2096,20 @@ impl HandlerRunner {
             }
             // the application of node X stops / resumes reading what its handler reports (a slow consumer:
             // the bounded channel fills up; whatever the handler has to say is said once there is room)
+            // the application of node X changes the local record (a field of its own; the sequence number rises)
+            ["henrbump", x] => {
+                if let Some(xi) = self.node_pos(x) {
+                    let key = key_of_idx(self.nodes[xi].idx);
+                    if let Some(arc) = self.nodes[xi].enr_arc.as_ref() {
+                        let mut w = arc.write();
+                        let v = w.seq();
+                        let _ = w.insert("v", &v, &key);
+                        stats.bump("h.op.local-record-changed");
+                    }
+                }
+                out.push("!OP hnop".into());
+                out.push("-".into());
+            }
             ["hhold", x] => {
                 if let Some(xi) = self.node_pos(x) {
                     let idx = self.nodes[xi].idx;
@@ -2795,6 +2812,29 @@ pub fn gen_case(rng: &mut Rng, tier: &str, profile: &str, stats: &mut Stats) -> 
                 ops.push("hrespawn 1".into());
             }
         }
+        ops.push("hquiet".into());
+        return ops;
+    }
+    if profile == "C19bump" {
+        // a handshake that carries the node's record goes unanswered; the record changes; the handshake is
+        // sent again (two retries): whatever goes out the second time, no (key, nonce) pair seals two
+        // different datagrams
+        stats.bump("gen.cases.record-changes-between-transmissions");
+        let x = rng.range(1, 2);
+        let y = 3 - x;
+        let mut ops = vec![format!("hworld 2 2 400 1000 86400000")];
+        ops.push(format!("hreq {} {} enr 1 {}", x, y, rng.range(1, 4)));
+        ops.push("hdel next".into());
+        ops.push(format!("hwru {} next none", y));
+        ops.push("hdel next".into());
+        // (the handshake is lost, or arrives and its answer is lost)
+        if rng.chance(1, 2) { ops.push("hdel skip".into()); } else { ops.push("hdel next".into()); ops.push("hdel skip".into()); }
+        ops.push(format!("henrbump {}", x));
+        ops.push("hadv 450".into());
+        ops.push("hdel next".into());
+        ops.push("hadv 450".into());
+        ops.push("hdel next".into());
+        ops.push("hadv 900".into());
         ops.push("hquiet".into());
         return ops;
     }
